@@ -104,9 +104,11 @@ type world struct {
 	reported map[string]bool
 	cnt      map[string]int64
 	fired    int // faults whose injection point was reached
-	run      *runState
-	faultsOn bool // still inside the faulty part of the schedule
-	inconcl  string
+	// family H: waves in which two or more transfers were parked mid-stream together
+	overlapWaves int
+	run          *runState
+	faultsOn     bool // still inside the faulty part of the schedule
+	inconcl      string
 }
 
 // ── construction ────────────────────────────────────────────────────────
@@ -212,12 +214,19 @@ func (w *world) openSpoke() error {
 		HubID: hubID, SpokeID: spokeID,
 		// one transfer at a time: the order of transport calls (and with it the meaning
 		// of "the N-th PutFile of this run") is then a function of the ledger alone
-		MaxConcurrent: 1,
+		MaxConcurrent: w.maxConcurrent(),
 		BatchSize:     w.spec.BatchSize,
 		Logger:        zerolog.Nop(),
 	})
 	w.cnt["spoke_process_starts"]++
 	return err
+}
+
+func (w *world) maxConcurrent() int {
+	if w.spec.Concurrent > 1 {
+		return w.spec.Concurrent
+	}
+	return 1
 }
 
 func (w *world) closeSpoke() {
@@ -314,8 +323,18 @@ func shaHex(b []byte) string {
 	return hex.EncodeToString(s[:])
 }
 
+// sameBasePath: every file is called data.parquet; hour, day, measurement and database
+// differ (Arc's own writers name files by timestamp, but nothing in the sync protocol
+// forbids equal base names: the identity of a file is its full path).
+func sameBasePath(i int) string {
+	return fmt.Sprintf("db%d/m%d/2026/08/%02d/%02d/data.parquet", i%2, i%3, 1+i/24, i%24)
+}
+
 func (w *world) addSpokeFile(i, size int) error {
 	p := spokePath(i)
+	if w.spec.Layout == "same-base" {
+		p = sameBasePath(i)
+	}
 	data := genContent(w.spec.Seed, i, size)
 	for len(w.paths) <= i {
 		w.paths = append(w.paths, "")
@@ -376,13 +395,16 @@ func (w *world) violate(clause, sig, what, path string) {
 
 // ── hub observation (clauses 1 and 2) ───────────────────────────────────
 
-func (w *world) snapshotHub() *hubSnap {
+func (w *world) snapshotHub() *hubSnap { return snapshotRoot(w.hubRoot) }
+
+// snapshotRoot reads what a hub storage root exposes right now.
+func snapshotRoot(root string) *hubSnap {
 	s := &hubSnap{visible: map[string]*hubFile{}}
-	_ = filepath.WalkDir(w.hubRoot, func(p string, d fs.DirEntry, err error) error {
+	_ = filepath.WalkDir(root, func(p string, d fs.DirEntry, err error) error {
 		if err != nil || d.IsDir() {
 			return nil
 		}
-		rel, _ := filepath.Rel(w.hubRoot, p)
+		rel, _ := filepath.Rel(root, p)
 		rel = filepath.ToSlash(rel)
 		switch {
 		case strings.HasPrefix(rel, edgesync.StagingPrefix+"/"):
@@ -715,6 +737,9 @@ func (w *world) doRun(faults []fault, restart bool) {
 	w.cnt["agent_runs"]++
 	w.tracef("run faults=%v", faults)
 	res, err := w.agent.Run(ctx)
+	w.transport.mu.Lock()
+	w.transport.endWaves()
+	w.transport.mu.Unlock()
 	if ctx.Err() == context.DeadlineExceeded {
 		w.inconcl = "agent run exceeded the watchdog"
 	}
